@@ -60,7 +60,8 @@ RULE = ("generated layouts under the scratch directory: regular packages (a fixe
         "every signature (no parameters vs all kinds, fewer, renamed, stub-only functions / methods / classes), an in-package __init__.pyi; random modules/subpackages/namespace subdirectories/stubs with google/numpy/sphinx docstrings covering every section "
         "kind); native namespace packages over 1..3 search paths (the first two of a run have 2 and 3 portions) with modules and regular subpackages in "
         "every portion, a nested namespace over a random non-empty subset of the portions and a second level, pkg_resources-style portions, imports across "
-        "portions; stubs-only packages on the same / another search path; inspector pass-through modules (defaults whose __name__ is an int / list / None / "
+        "portions; stubs-only packages on the same / another search path; the first package of a run imports its own init-less sub-folder and holds a "
+        "module and a sub-package that are symbolic links to a place outside the search directory; inspector pass-through modules (defaults whose __name__ is an int / list / None / "
         "object, annotation objects with unparsable / parsable repr: all must dump and validate); a docstring-matrix package (docstrings of each style on "
         "every kind of object that make the parsers warn -- unknown parameters, missing types, malformed items -- and Sphinx fields naming dotted / "
         "aliased / unresolvable attributes) under every parser (None / google / numpy / sphinx / auto) x docstring_options (None / {} / non-empty) x "
@@ -652,13 +653,22 @@ def feature_module(pkg):
 
 
 def write_files(root: Path, files: dict):
+    """text files; a value {"symlink_to": <path relative to the scratch root>} makes a symbolic link (written last)"""
+    links = []
     for rel, text in files.items():
         p = root / rel
         p.parent.mkdir(parents=True, exist_ok=True)
+        if isinstance(text, dict):
+            links.append((p, text["symlink_to"]))
+            continue
         p.write_text(text, encoding="utf-8")
+    for p, target in links:
+        if p.is_symlink() or p.exists():
+            p.unlink()
+        os.symlink(os.path.relpath(root / target, p.parent), p)
 
 
-def write_package(rng, root: Path, pkg: str, variant: str = "regular"):
+def write_package(rng, root: Path, pkg: str, variant: str = "regular", force_extras: bool = False):
     """regular package <root>/<pkg>; variant stubs-same / stubs-other adds a stubs-only package `<pkg>-stubs` (same search path /
     another search path) holding a module that only exists there. Returns a layout."""
     files = {}
@@ -688,10 +698,19 @@ def write_package(rng, root: Path, pkg: str, variant: str = "regular"):
         files[f"{base}/__init__.py"] += "def init_placeholder(): ...\nclass InitHolder:\n    def meth(): ...\n"
         files[f"{base}/__init__.pyi"] = ("from typing import Any\ndef init_placeholder(p: int, /, q: str = ..., *args: int, k: bool = ..., **kw: Any) -> int: ...\n"
                                          "class InitHolder:\n    def meth(self, x: int = ...) -> str: ...\nVERSION: str\n")
-    has_nsdir = rng.random() < 0.3
+    has_nsdir = force_extras or rng.random() < 0.3
     if has_nsdir:
-        # namespace subpackage inside a regular package (list filepath)
+        # namespace subpackage inside a regular package (list filepath), imported by the package itself half of the time
         files[f"{base}/nsdir/deep.py"] = "z = 1\n"
+        if force_extras or rng.random() < 0.5:
+            files[f"{base}/__init__.py"] += f"from {pkg} import nsdir\nfrom . import nsdir as data_folder\n"
+    if force_extras or rng.random() < 0.35:
+        # a module and a sub-package that are symbolic links to a place outside the search directory (linked checkouts)
+        files[f"../outside_{pkg}/linked_target.py"] = '"""Reached through a link."""\ndef linked_fn(p: int = 0) -> int: ...\n'
+        files[f"../outside_{pkg}/linked_pkg/__init__.py"] = "LINKED = 1\n"
+        files[f"../outside_{pkg}/linked_pkg/inner.py"] = "class Inner:\n    at: int = 0\n"
+        files[f"{base}/linked.py"] = {"symlink_to": f"../outside_{pkg}/linked_target.py"}
+        files[f"{base}/linkedsub"] = {"symlink_to": f"../outside_{pkg}/linked_pkg"}
     if rng.random() < 0.4:
         files[f"{base}/{subs[0]}.pyi"] = "from typing import Any\ndef stub_only(p: int, /, *, k: str = ...) -> Any: ...\nSV: int\n"
     sps = ["."]
@@ -915,6 +934,16 @@ def nontrivial_node(d):
     return any(k in d for k in ("docstring", "lineno", "bases", "parameters", "value", "annotation", "target_path"))
 
 
+def stubs_module_outside(tree) -> bool:
+    """C09-F7 classifier, harness half: some module of the tree has its file below a `<package>-stubs` directory"""
+    if tree[0] != "pobj":
+        return False
+    fp = tree[4]
+    if fp[0] == "own" and fp[1][0] == "one" and any(c.endswith("-stubs") for c in fp[1][1]):
+        return True
+    return any(stubs_module_outside(m) for _n, m in tree[9])
+
+
 def check_outcome(st: State, top, tree, outcome, cwd, label: dict, nodes: bool = True):
     """one dump of one loaded tree from one working directory: the model's `dump` (paths derived, then the encoder) against what
     as_json(full=True) did -- both may raise; then the whole-document and node-by-node ties and the direct property evaluation"""
@@ -939,6 +968,8 @@ def check_outcome(st: State, top, tree, outcome, cwd, label: dict, nodes: bool =
         ctx.observe("dump_exception", f"{ename}: {msg[:24]}")
         if res[0] == "err":
             finding, same = MODEL_ERRORS[res[1]]
+            if finding == "C09-F7" and not (label.get("find_stubs_package") and stubs_module_outside(tree)):
+                finding = None    # F7 is about modules of a stubs-only package; any other module outside its package is something else
             if same(ename, msg) and finding is not None:
                 # the faithful model of the unchanged code raises the same error on this very tree and cwd: the known finding
                 ctx.property_failure({**label, "files": files}, detail, finding=finding)
@@ -977,7 +1008,7 @@ def check_outcome(st: State, top, tree, outcome, cwd, label: dict, nodes: bool =
         if isinstance(nd, dict) and "relative_filepath" in nd:
             rf, fp = nd["relative_filepath"], nd["filepath"]
             ctx.observe("relative_filepath_branch", ("namespace:" if isinstance(fp, list) else "file:")
-                        + ("absolute" if rf.startswith("/") else "dot" if rf == "." else "relative"))
+                        + ("not-a-string" if not isinstance(rf, str) else "absolute" if rf.startswith("/") else "dot" if rf == "." else "relative"))
     if not jv:
         ctx.observe("whole_doc_invalid", 1)
     if not nodes:
@@ -1030,7 +1061,7 @@ def ast_functions(files: dict):
     import ast
     out = {}
     for rel, text in files.items():
-        if not rel.endswith(".py"):
+        if not rel.endswith(".py") or not isinstance(text, str):
             continue
         try:
             tree = ast.parse(text)
@@ -1753,7 +1784,7 @@ def run_packages(st: State, root: Path, n_packages: int, direct_only=False):
                 # portions: the first namespace layouts of a run cover 2 and 3 portions, later ones are random (1..3)
                 layout = write_namespace_layout(ctx.rng, root, pkg, k={1: 2, 4: 3}.get(i))
             else:
-                layout = write_package(ctx.rng, root, pkg, variant)
+                layout = write_package(ctx.rng, root, pkg, variant, force_extras=(i == 0))   # the first package of a run has every extra
             configs = CONFIGS if not ctx.quick else [CONFIGS[0], CONFIGS[1], CONFIGS[4]] + ctx.rng.sample(CONFIGS[2:4] + CONFIGS[5:], 1)
             if variant == "namespace":
                 static = [c for c in configs if c[0] == "static"]
